@@ -1015,6 +1015,12 @@ func c02Budget(e *c02Env) {
 		e.evalVerify(k, []string{fmt.Sprintf("deep chain of %d intermediates", d)})
 		e.out.Count(fmt.Sprintf("class:budget-deep-%d-admitted-%v", d, ok))
 		_ = labels
+		// every certificate has exactly one candidate parent (unique key ids), the root is tried once at the top:
+		// d+1 signature checks; the documented budget is 100 calls
+		if ok != (d+1 <= 100) {
+			e.out.Fail(fmt.Sprintf("budget: linear chain of %d intermediates below a trusted root", d),
+				fmt.Sprintf("needs %d signature checks (budget 100): admitted=%v", d+1, ok))
+		}
 	}
 	// many same-name roots; the leaf's issuer has no key id so that candidates are found by name
 	var rs []*vCert
@@ -1034,5 +1040,9 @@ func c02Budget(e *c02Env) {
 		ok := e.eval(k, []string{fmt.Sprintf("leaf under the last of %d same-name roots", m)}, neutral, 1)
 		e.evalVerify(k, []string{fmt.Sprintf("leaf under the last of %d same-name roots", m)})
 		e.out.Count(fmt.Sprintf("class:budget-fan-%d-admitted-%v", m, ok))
+		if ok != (m <= 100) {
+			e.out.Fail(fmt.Sprintf("budget: leaf issued by the last of %d same-name roots", m),
+				fmt.Sprintf("needs %d signature checks (budget 100): admitted=%v", m, ok))
+		}
 	}
 }
